@@ -1,5 +1,5 @@
-SPECIFICATION Spec
-CONSTANTS Wr = {1,2}  MaxOps = 3  Fams = {"objT"}  Bug = "none"
+SPECIFICATION SpecMC
+CONSTANTS Wr = {1,2,3}  MaxOps = 5  Fams = {"objT","objF","uniq"}  Bug = "noInvalid"
 INVARIANTS TypeOK NoBad NoLeak StorageDocumented Destructible AbsAgrees OpMovesOnly
 VIEW View
 CHECK_DEADLOCK FALSE
